@@ -1,24 +1,72 @@
 ---- MODULE Loader ----
-\* Confinement of the local resource loader: an IRI under a configured namespace is mapped to a
-\* path below the configured directory by walking the remainder segment by segment.
+\* The file-system backed resource loader (resource/src/loader/_local.rs) and the file system it talks to.
+\*
+\* World: one authority "http://ex/"; an IRI is the sequence of the '/'-separated segments after it
+\*   ("http://ex/a/sub/x.ttl" = <<"a","sub","x.ttl">>, "http://ex/a//etc" = <<"a","","etc">>);
+\*   a namespace "http://ex/a/" is the sequence <<"a">> (it always ends with '/', LocalLoader::check);
+\*   a file-system path is the sequence of names below the root of the (sandboxed) file system.
+\* The loader maps (first namespace that prefixes the IRI, remainder) to directory ++ remainder and opens it;
+\* `Open` is what the operating system does with the joined path (absolute remainders replace the directory,
+\* ".." is followed physically, every intermediate component must be an existing directory).
 EXTENDS Naturals, Sequences, FiniteSets, TLC
-\* the file tree below the configured root, as a set of paths (sequences of names); contents are the path itself
-CONSTANT Files
-RECURSIVE Walk(_, _, _)
-\* returns [esc |-> BOOLEAN, stack |-> path]; a leading empty segment denotes an absolute sub-path
-Walk(segs, i, stack) ==
-  IF i > Len(segs) THEN [esc |-> FALSE, stack |-> stack]
+
+CONSTANTS Dirs,     \* existing directories (set of paths); <<>> (the root) is always one
+          Files,    \* existing regular files (set of paths)
+          Caches    \* sequence of [ns |-> segments, dir |-> path]
+
+IsPrefix(p, s) == Len(p) <= Len(s) /\ SubSeq(s, 1, Len(p)) = p
+Under(f, d) == Len(f) > Len(d) /\ IsPrefix(d, f)
+\* string prefix "http://ex/<ns>/" of "http://ex/<iri>": at least one more segment follows (it may be empty)
+NsMatches(ns, iri) == Len(iri) > Len(ns) /\ IsPrefix(ns, iri)
+Rem(ns, iri) == SubSeq(iri, Len(ns) + 1, Len(iri))
+
+\* ---------- the operating system ----------
+\* open(dir joined with the '/'-separated remainder): the file reached, ENOENT ("not-found") or another error ("io": EISDIR, ENOTDIR)
+IsDir(p) == p = <<>> \/ p \in Dirs
+RECURSIVE OsWalk(_, _, _)
+OsWalk(segs, i, cur) ==   \* cur: the path reached so far
+  IF i > Len(segs) THEN [st |-> "ok", path |-> cur]
+  ELSE IF ~IsDir(cur) THEN [st |-> IF cur \in Files THEN "io" ELSE "not-found", path |-> cur]
   ELSE LET s == segs[i] IN
-       IF s = "" THEN (IF i = 1 /\ Len(segs) > 1 THEN [esc |-> TRUE, stack |-> <<>>] ELSE Walk(segs, i + 1, stack))
-       ELSE IF s = "." THEN Walk(segs, i + 1, stack)
-       ELSE IF s = ".." THEN (IF stack = <<>> THEN [esc |-> TRUE, stack |-> <<>>] ELSE Walk(segs, i + 1, SubSeq(stack, 1, Len(stack) - 1)))
-       ELSE Walk(segs, i + 1, Append(stack, s))
-HasExt(name) == name \in {"ok.ttl", "in.ttl", "secret.ttl", "x.nt"}        \* names of the model carry their extension explicitly
-WithExt(path, ext) == IF path = <<>> THEN path ELSE SubSeq(path, 1, Len(path) - 1) \o << path[Len(path)] \o ext >>
-\* the files the loader may return for the segments after the namespace (an error is always allowed)
-Allowed(segs) ==
-  LET w == Walk(segs, 1, <<>>) IN
-  IF w.esc THEN {}                                   \* nothing may be returned (an error is always acceptable)
-  ELSE IF w.stack \in Files THEN {w.stack}
-  ELSE { WithExt(w.stack, e) : e \in {x \in {".ttl", ".nt"} : WithExt(w.stack, x) \in Files} }
+       IF s = "" \/ s = "." THEN OsWalk(segs, i + 1, cur)
+       ELSE IF s = ".." THEN OsWalk(segs, i + 1, IF cur = <<>> THEN cur ELSE SubSeq(cur, 1, Len(cur) - 1))
+       ELSE OsWalk(segs, i + 1, Append(cur, s))
+\* PathBuf::join: a remainder that starts with '/' (empty first segment, more to follow) is absolute and replaces dir
+Join(dir, rem) == IF Len(rem) > 1 /\ rem[1] = "" THEN [start |-> <<>>, segs |-> rem] ELSE [start |-> dir, segs |-> rem]
+Open(dir, rem) == LET j == Join(dir, rem)  w == OsWalk(j.segs, 1, j.start)
+                  IN IF w.st # "ok" THEN [k |-> w.st, path |-> <<>>]
+                     ELSE IF w.path \in Files THEN [k |-> "file", path |-> w.path]
+                     ELSE IF IsDir(w.path) THEN [k |-> "io", path |-> <<>>]
+                     ELSE [k |-> "not-found", path |-> <<>>]
+
+\* ---------- the loader ----------
+\* names with an extension: the last '.' comes after the last '/' (no_ext in Loader::get looks at the whole IRI)
+CONSTANT DotNames   \* the names of the model's alphabet that contain a '.'
+HasDot(name) == name \in DotNames
+Exts == <<".ttl", ".nt", ".jsonld", ".rdf">>
+WithExt(segs, ext) == SubSeq(segs, 1, Len(segs) - 1) \o << segs[Len(segs)] \o ext >>
+\* the guard of the repaired loader: every component of the remainder is a normal name or "."
+\* (std::path::Component::Normal | CurDir; an absolute remainder has a RootDir component, ".." is ParentDir)
+Guard(rem) == /\ ~(Len(rem) > 1 /\ rem[1] = "")
+              /\ \A i \in 1..Len(rem) : rem[i] # ".."
+FirstCache(iri) == IF \E i \in 1..Len(Caches) : NsMatches(Caches[i].ns, iri)
+                   THEN CHOOSE i \in 1..Len(Caches) : NsMatches(Caches[i].ns, iri) /\ \A j \in 1..(i - 1) : ~NsMatches(Caches[j].ns, iri)
+                   ELSE 0
+RECURSIVE Get(_, _, _)
+Get(iri, guarded, retry) ==
+  LET c == FirstCache(iri) IN
+  IF c = 0 THEN [k |-> "unsupported", path |-> <<>>]
+  ELSE LET rem == Rem(Caches[c].ns, iri) IN
+       IF guarded /\ ~Guard(rem) THEN [k |-> "unsupported", path |-> <<>>]
+       ELSE LET r == Open(Caches[c].dir, rem) IN
+            IF r.k # "not-found" \/ ~retry \/ HasDot(iri[Len(iri)]) THEN r
+            ELSE LET hits == {e \in 1..Len(Exts) : Get(WithExt(iri, Exts[e]), guarded, FALSE).k = "file"}
+                 IN IF hits = {} THEN r ELSE Get(WithExt(iri, Exts[CHOOSE e \in hits : \A f \in hits : e <= f]), guarded, FALSE)
+GetFixed(iri) == Get(iri, TRUE, TRUE)      \* the repaired algorithm
+GetPinned(iri) == Get(iri, FALSE, TRUE)    \* the algorithm of the pinned commit (kept to show what TLC finds on it)
+
+\* ---------- the property (C19) ----------
+\* whatever is returned lies inside the directory mapped to SOME configured namespace that prefixes the IRI
+\* (IRI as given to the loader, or with one of the negotiated extensions appended)
+Confined(iri, r) == r.k = "file" => \E i \in 1..Len(Caches) : NsMatches(Caches[i].ns, iri) /\ Under(r.path, Caches[i].dir)
 ====
